@@ -12,6 +12,7 @@ R01.3 is advisory (INFO).  Not decided: termination and value preservation of th
 import ast
 
 from sa import AnalysisError
+from sa.guards import decompose
 from sa.astutil import dotted, src, stmt_text, params, arity, find_stmts, calls_in, method_name, walk_no_nested, const
 
 EXTRA_PROTOCOLS = ['_simplified', '_optimized_for_numpy', '_derivative', '_compile', '_compile_with_out', '_intbounds_impl', '_argument_degree', '_assparse', '_node']
@@ -361,6 +362,64 @@ def check_zeros_shortcuts(model, rep, rule='R01.9'):
     rep.ob(rule, 'evaluable:Zeros', f'{z.module.relpath}:{z.node.lineno}', True, f'{n} reduction shortcuts of Zeros with a non-zero empty value inspected', statement='zeros-shortcuts-inspected')
 
 
+def check_range_recognition(model, rep):
+    """R01.10: Constant._simplified replaces an integer vector by Range(n) + first only when the vector IS first, first+1, ..., i.e. every
+    consecutive difference is 1.  The guard must contain a proof of that: all(diff == 1) directly, or - for integers - strictly increasing
+    entries together with last == first + size - 1 (pigeonhole).  Non-strict monotonicity does not do: [0, 1, 1, 3] has the right end points."""
+    from sa.guards import strip_all
+    from sa.pattern import pmatch
+    f = model.func('evaluable:Constant._simplified')
+    sites = [s_ for s_ in ast.walk(f.node) if isinstance(s_, ast.If) and any(isinstance(c, ast.Call) and src(c.func) == 'Range' for b in s_.body for c in ast.walk(b))]
+    if len(sites) != 1:
+        raise AnalysisError(f'Constant._simplified: {len(sites)} branches that build a Range')
+    g = sites[0]
+    atoms = [(n, v) for n, v in decompose(g.test, True)]
+    inner = [strip_all(n) for n, v in atoms if v and strip_all(n) is not None]
+    direct = any(pmatch(pt, e) is not None for e in inner for pt in ('numpy.diff(X_) == 1', 'X_[1:] - X_[:-1] == 1', 'X_[1:] == X_[:-1] + 1', 'X_[:-1] + 1 == X_[1:]'))
+    strict = [m for e in inner for pt in ('X_[1:] > X_[:-1]', 'X_[:-1] < X_[1:]', 'numpy.diff(X_) > 0', 'numpy.diff(X_) >= 1') for m in [pmatch(pt, e)] if m is not None]
+    ends = [m for n, v in atoms if v for pt in ('X_[-1] == X_[0] + X_.size - 1', 'X_[-1] == X_[0] + len(X_) - 1', 'X_[-1] - X_[0] == X_.size - 1', 'X_[-1] - X_[0] == len(X_) - 1', 'X_[0] + X_.size - 1 == X_[-1]')
+            for m in [pmatch(pt, n)] if m is not None]
+    isint = any(v and src(n) in ('self.dtype == int', 'int == self.dtype') for n, v in atoms)
+    pigeon = any(src(a['X_']) == src(b['X_']) for a in strict for b in ends) and isint
+    ok = direct or pigeon
+    rep.ob('R01.10', f.key, f.where(g), ok, 'a constant vector becomes a Range only when all consecutive differences are 1 (strictly increasing integers with matching end points)' if ok else
+           f'`{src(g.test)[:110]}` does not establish that every consecutive difference is 1 (a non-strict or missing monotonicity test lets vectors with repeated entries through): '
+           'the simplified expression is first + Range(n), whose values differ from the constant', statement='range-recognition')
+
+
+def check_multiset_difference(model, rep):
+    """R01.11: the factors of a Multiply and the terms of an Add are MULTISETS (a*a has the factor a twice).  Splitting two operand lists into
+    common and remaining parts must consume one occurrence per match (`if f in factors: factors.remove(f)`); a comprehension that filters by
+    membership (`[f for f in factors if f not in common]`) is a SET difference and drops every repetition: a*a*b + a*c would become a*(b + c)."""
+    n = 0
+    for k, f in sorted(model.functions.items()):
+        if f.module.short != 'evaluable' or isinstance(f.node, ast.Lambda) or f.cls is None or f.cls.name not in ('Multiply', 'Add'):
+            continue
+        derived = {'self._factors', 'self._terms', 'other._factors', 'other._terms'}
+        changed = True
+        while changed:
+            changed = False
+            for s_ in ast.walk(f.node):
+                if isinstance(s_, ast.Assign) and len(s_.targets) == 1 and isinstance(s_.targets[0], ast.Name) and s_.targets[0].id not in derived:
+                    if any((isinstance(x, ast.Attribute) and x.attr in ('_factors', '_terms')) or (isinstance(x, ast.Name) and x.id in derived) for x in ast.walk(s_.value)):
+                        derived.add(s_.targets[0].id)
+                        changed = True
+        for c in ast.walk(f.node):
+            if not isinstance(c, (ast.ListComp, ast.GeneratorExp, ast.SetComp)):
+                continue
+            for g in c.generators:
+                for cond in g.ifs:
+                    for cmp_ in ast.walk(cond):
+                        if isinstance(cmp_, ast.Compare) and len(cmp_.ops) == 1 and isinstance(cmp_.ops[0], (ast.In, ast.NotIn)):
+                            it, other = src(g.iter), src(cmp_.comparators[0])
+                            if (it in derived or any(d in it for d in ('_factors', '_terms'))) and (other in derived or any(d in other for d in ('_factors', '_terms'))) \
+                                    and src(cmp_.left) == src(g.target):
+                                n += 1
+                                rep.ob('R01.11', f.key, f.where(c), False, f'`{src(c)[:80]}` splits one operand multiset by membership in another: every repetition of a common operand is removed at once, '
+                                       'so a repeated factor (a*a) or term loses its multiplicity and the rewritten expression has other values', statement=f'multiset-difference {src(c)[:40]}')
+    rep.ob('R01.11', 'evaluable:Multiply', 'src/nutils/evaluable.py:1', True, f'no membership-filter difference on the operand multisets of Multiply/Add ({n} found)', statement='multiset-difference-inspected')
+
+
 def run(model, rep, tier):
     rep.explanation = (
         'R01.1: the rewrite system is a double-dispatch protocol; the arities declared by the `_x = lambda self, ...: None` defaults in evaluable.Array (and by _simplified, _derivative, _compile_with_out, ...) are '
@@ -384,6 +443,10 @@ def run(model, rep, tier):
     check_certain_equality(model, rep)
     rep.rule('R01.9', 'Zeros shortcuts of reductions with neutral element 1 (product, determinant) decide the empty axis first')
     check_zeros_shortcuts(model, rep)
+    rep.rule('R01.10', 'a constant integer vector is rewritten to a Range only under a guard that proves unit steps')
+    check_range_recognition(model, rep)
+    rep.rule('R01.11', 'operand multisets of Multiply/Add are never split by a membership filter (set difference)')
+    check_multiset_difference(model, rep)
     check_hoist_quantifier(model, rep)
     from rules.c06 import check_transfer
     from rules.c03 import _Rename
